@@ -226,7 +226,7 @@ PROPS = {
 
 # ----------------------------------------------------------------------------- search engine
 
-SEARCH_INVS = ["NoInvention", "DfsPrefix", "Complete", "Terminates", "EmitCase"]
+SEARCH_INVS = ["NoInvention", "DfsPrefix", "Complete", "Terminates", "StepPreservesBag", "EmitCase"]
 R_ORDER = {"wrong_order"}
 R_GROUP = {"group_bags_differ", "group_sequences_differ", "group_union_differs"}
 
